@@ -2,8 +2,9 @@
 The regenerated part of the tie between `Model/Slices` and the source: the statements of `list_impl.go` that decide where
 the elements of a list live, as `vextract` finds them in the current source (`Generated/Storage.lean`), are the statements the
 operations of `Slices.step` were written from. Each line below names the model operation that mirrors it. The statements are in
-the extractor's normal form (harness/cmd/vextract/storage.go, rule S2): the receiver is `r`, other variables are numbered in order
-of appearance, a temporary used once is folded into its use, a repeated statement is listed once.
+the extractor's normal form (harness/cmd/vextract/storage.go, rule S2): the receiver is `r`, the other variables of a statement are
+numbered in order of appearance, a temporary used once is folded into its use, `:=` and `var … =` read `=`, the capacity argument of
+a three-argument `make` reads `_`, a repeated statement is listed once.
 
 (The method translators read `[]field` as a list without capacity; this table is about exactly what that reading leaves out.
 A change of any of these statements — `Concat` appending to the receiver's slice, `SubList` re-slicing instead of copying,
@@ -16,31 +17,31 @@ namespace Anytype
 
 def expectedStorageSites : List (String × List String) := [
   -- Slices.push / pushAll
-  ("list.Add", ["r.val = append(r.val, parseVal(v2))"]),
+  ("list.Add", ["r.val = append(r.val, parseVal(v1))"]),
   -- Slices.step (.clear): a new empty array
   ("list.Clear", ["r.val = []field{}"]),
-  -- Slices.step (.concat): mk 0 (n+m); append; append — a new array, never the receiver's (val := make(…) is folded in: rule S2b)
-  ("list.Concat", ["v2 := &list{val: append(append(make([]field, 0, len(r.val)+len(v3)), r.val...), v3...)}"]),
+  -- Slices.step (.concat): mk 0 (n+m); append; append — a new array, never the receiver's (val := make(…) is folded in: S2b)
+  ("list.Concat", ["v1 = &list{val: append(append(make([]field, 0, _), r.val...), v2...)}"]),
   -- Slices.deleteAt
-  ("list.Delete", ["r.val = append(r.val[:v2], r.val[v2+1:]...)"]),
+  ("list.Delete", ["r.val = append(r.val[:v1], r.val[v1+1:]...)"]),
   -- Slices.step (.insert): append over the prefix header ⟨arr, i+1⟩, then writeAt i
-  ("list.Insert", ["r.val = append(r.val[:v2+1], r.val[v2:]...)", "r.val[v2] = v3"]),
+  ("list.Insert", ["r.val = append(r.val[:v1+1], r.val[v1:]...)", "r.val[v1] = v2"]),
   -- Slices.step (.replace): writeAt
-  ("list.Replace", ["r.val[v2] = parseVal(v3)"]),
+  ("list.Replace", ["r.val[v1] = parseVal(v2)"]),
   -- Slices.swap / reverseLoop
-  ("list.Reverse", ["r.val[v2], r.val[v3] = r.val[v3], r.val[v2]"]),
-  -- Slices.step (.sort): the slice of a temporary list made by NewListFrom (three arms, one statement: rule S2c)
-  ("list.Sort", ["r.val = NewListFrom(v2).(*list).val"]),
+  ("list.Reverse", ["r.val[v1], r.val[v2] = r.val[v2], r.val[v1]"]),
+  -- Slices.step (.sort): the slice of a temporary list made by NewListFrom (three arms, one statement: S2c)
+  ("list.Sort", ["r.val = NewListFrom(v1).(*list).val"]),
   -- Slices.step (.subList): mk (e-s) (e-s); writeAt 0 (copy)
-  ("list.SubList", ["v2 := &list{val: make([]field, v3-v4)}", "copy(v2.val, r.val[v4:v3])"]),
+  ("list.SubList", ["v1 = &list{val: make([]field, v2-v3)}", "copy(v1.val, r.val[v2:v3])"]),
   -- Slices.step (.clone): mk n n; element-wise stores
-  ("list.copy", ["v2 := &list{val: make([]field, r.Ego().Count())}", "v2.val[v3] = parseVal(v4.copy())"]),
+  ("list.copy", ["v1 = &list{val: make([]field, r.Ego().Count())}", "v1.val[v2] = parseVal(v3.copy())"]),
   -- Slices.step (.newList): alloc 0 0, then Add
-  ("NewList", ["v1 := &list{val: []field{}}"]),
+  ("NewList", ["v1 = &list{val: []field{}}"]),
   -- Slices.step (.newListFrom): alloc 0 len, then Add
-  ("NewListFrom", ["v1 = &list{val: make([]field, 0, v2)}"]),
+  ("NewListFrom", ["v1 = &list{val: make([]field, 0, _)}"]),
   -- Slices.step (.newListOf): alloc 0 count, then count appends
-  ("NewListOf", ["v1 := &list{val: make([]field, 0, v2)}", "v1.val = append(v1.val, v3)"])
+  ("NewListOf", ["v1 = &list{val: make([]field, 0, _)}", "v1.val = append(v1.val, v2)"])
 ]
 
 /-- the source still manipulates list storage by exactly the statements `Model/Slices` mirrors -/
